@@ -83,7 +83,11 @@ def stepRun (hs : HState) (op impl : String) : StepAns :=
   let osecs0 := op.splitOn ";"
   let kind := let k := field osecs0 "k"; if k == "" then "u" else k
   let ver := let v := field osecs0 "v"; if v == "" then "" else strOfHex v
-  let osecs := osecs0.filter fun x => !(x.startsWith "k=" || x.startsWith "v=")
+  let x2 := field osecs0 "x2" == "1"
+  let ds : Int := (field osecs0 "ds").toInt?.getD 0
+  let dp : Int := (field osecs0 "dp").toInt?.getD 0
+  let ml : Option Nat := (field osecs0 "ml").toNat?     -- TxtFileLoader.SetMaxLine
+  let osecs := osecs0.filter fun x => x.startsWith "r=" || x.startsWith "s=" || x.startsWith "p="
   let isecs := impl.splitOn ";"
   if osecs.length != 3 then { model := "bad-op", verdict := "skip", tags := [], st := hs } else
   let rtok := listOf (field osecs "r")
@@ -105,14 +109,23 @@ def stepRun (hs : HState) (op impl : String) : StepAns :=
   let ranges : List Item := ins.filterMap fun x => x.2.1
   let sgl : List (Option Nat) := stok.map fun t => (parseIP t).map encIP
   let singles : List Nat := (ins.filterMap fun x => x.2.2) ++ sgl.filterMap id
-  let expE := if kind == "n" then "." else
+  -- file loads: the meta line declares nSingle+ds / nPair+dp entries; a negative count makes the meta line invalid, the
+  -- loader then counts the entries itself and the file has NO version; a too small count aborts the load
+  let nSingle : Int := (ins.countP fun x => x.1 == 2) + stok.length
+  let nPair : Int := ins.countP fun x => x.1 != 2
+  let metaBad := kind == "f" && ver != "" && (nSingle + ds < 0 || nPair + dp < 0)
+  let ver := if metaBad then "" else ver
+  let short := kind == "f" && ((ver != "" && (ds < 0 || dp < 0)) ||
+    (match ml with | some k => decide (rtok.length + stok.length > k) | none => false))
+  let expE := if kind == "n" || kind == "q" then "." else
     if ins.isEmpty then "." else String.ofList (ins.map fun x => if x.1 == 0 then '0' else if x.1 == 1 then '1' else '2')
-  let expF := if kind == "n" then "." else bits (sgl.map Option.isNone)
-  let anyErr := ins.any (fun x => x.1 == 1) || sgl.any Option.isNone
+  let expF := if kind == "n" || kind == "q" then "." else bits (sgl.map Option.isNone)
+  let anyErr := ins.any (fun x => x.1 == 1) || sgl.any Option.isNone || short
   -- what happens to the table in this step
   let status :=
     if kind == "n" then "nil"
-    else if kind == "u" then "ok"
+    else if kind == "q" then "keep"
+    else if kind == "u" || kind == "w" then "ok"
     else if ver != "" && !needLoad hs.table.version ver then "skip"
     else if anyErr then "err" else "ok"
   -- specification: after a (successful) Update(X) exactly X is reported, whatever was loaded before
@@ -124,9 +137,16 @@ def stepRun (hs : HState) (op impl : String) : StepAns :=
   let curRanges := match spec' with | some (r, _) => r | none => []
   let curSingles := match spec' with | some (_, s) => s | none => []
   let v0 := curRanges.any fun r => r.2 == encIP v4zero
+  let implW := field isecs "w"
+  let swapBad := kind == "w" &&
+    (implW.length != probes.length && !(probes.isEmpty && implW == ".") ||
+     ((probes.zip implW.toList).any fun (p, c) =>
+        let o := specQ hs.spec p; let n := specQ spec' p
+        if o == n then c != (if o then '1' else '0') else !(c == '0' || c == '1' || c == 'm')))
   let verdict :=
     if field isecs "e" != expE || field isecs "f" != expF then "FAIL:insert-validation"
     else if field isecs "ld" != status || field isecs "ver" != hexOfStr specVer' then "FAIL:update-status"
+    else if swapBad then "FAIL:swap-torn"
     else if implQ == bits expQ then "ok"
     else if (status == "ok" || status == "nil") && implQ == bits staleQ then "FAIL:update-stale"
     else
@@ -143,11 +163,21 @@ def stepRun (hs : HState) (op impl : String) : StepAns :=
       | _ => "FAIL:probe-count"
   let finish := fun (tbl : IPTableM) (mid : String) (tags : List String) =>
     let q := probes.map tbl.search
-    { model := "e=" ++ expE ++ ";f=" ++ expF ++ mid ++ ";ld=" ++ status ++ ";ver=" ++ hexOfStr tbl.version ++ ";q=" ++ bits q,
-      verdict := verdict, tags := tags ++ [if kind == "u" then "update" else if kind == "n" then "update-nil" else "file-" ++ status],
+    -- swap while searching: every answer must be the old table's or the new table's (echo what was observed if so)
+    let w := if kind != "w" then "" else
+      ";w=" ++ (if probes.isEmpty then "." else String.ofList ((probes.zip ((field isecs "w").toList ++ List.replicate probes.length '?')).map fun (p, c) =>
+        let o := hs.table.search p; let n := tbl.search p
+        if o == n then (if o then '1' else '0') else if c == '0' || c == '1' || c == 'm' then c else '?'))
+    { model := "e=" ++ expE ++ ";f=" ++ expF ++ mid ++ ";ld=" ++ status ++ ";ver=" ++ hexOfStr tbl.version ++ w ++ ";q=" ++ bits q,
+      verdict := verdict,
+      tags := tags ++ [if kind == "u" then "update" else if kind == "n" then "update-nil" else if kind == "q" then "probe-only"
+                       else if kind == "w" then "swap" else "file-" ++ status] ++
+              (if kind == "w" && (field isecs "w").contains 'm' then ["swap-mixed-seen"] else []) ++
+              (if x2 then ["sort-twice"] else []) ++ (if metaBad then ["file-meta-negative"] else []) ++ (if short then ["file-meta-short"] else []) ++
+              (if kind == "q" && hs.table.isNone then ["search-before-update"] else []),
       st := { table := tbl, spec := spec', specVer := specVer' } : StepAns }
   if status != "ok" then
-    finish (if status == "nil" then hs.table.update none else hs.table) ";s1=.;m=0;s2=.;t=." []
+    finish (if status == "nil" then hs.table.update none else hs.table) ";s1=.;m=0;s2=.;t=.;n=-" []
   else
   -- the sort oracle taken from the implementation, validated
   match parseItems (field isecs "s1"), parseItems (field isecs "s2") with
@@ -156,7 +186,9 @@ def stepRun (hs : HState) (op impl : String) : StepAns :=
     let b := mergeItemsA s1   -- the index-based array loops (= mergeItems by C19_merge_array_eq)
     let ok2 := s2.isPerm b.1 && sortedDescB s2
     if !(ok1 && ok2) then { model := "inadmissible-sort-oracle", verdict := verdict, tags := ["bad-oracle"], st := hs } else
-    let t := sortTable (fun _ => s1) (fun _ => s2) ranges
+    let t1 := sortTable (fun _ => s1) (fun _ => s2) ranges
+    -- Sort() called a second time: any admissible sorts give the same table again (C19_sort_idempotent)
+    let t := if x2 then sortTable goSort goSort t1 else t1
     let n := ranges.length
     let tags :=
       (if b.2 > 0 then ["nt", "merge"] else ["nomerge"]) ++
@@ -168,7 +200,11 @@ def stepRun (hs : HState) (op impl : String) : StepAns :=
       (if ins.any (fun x => x.1 == 1) then ["rejected-range"] else []) ++
       (if hs.table.isSome && hs.table.version == ver then [if ver == "" then "same-version-empty" else "same-version"] else [])
     finish (hs.table.update (some { singles := singles, table := t, version := ver }))
-      (";s1=" ++ renderItems s1 ++ ";m=" ++ toString b.2 ++ ";s2=" ++ renderItems s2 ++ ";t=" ++ renderItems t) tags
+      (";s1=" ++ renderItems s1 ++ ";m=" ++ toString b.2 ++ ";s2=" ++ renderItems s2 ++ ";t=" ++ renderItems t ++
+       ";n=" ++ toString (IPItemsM.length { singles := singles, table := t, version := ver })) (tags ++
+       (if n > 100 then ["n>100"] else []) ++
+       (if ranges.any (fun r => decide (r.1 < encIP v4zero) && decide (r.2 ≥ encIP (v4zero + 2 ^ 32))) then ["spans-v4-block"] else []) ++
+       (if ranges.any (fun r => r.2 == encIP (2 ^ 128 - 1)) then ["ends-at-max"] else []))
   | _, _ => { model := "unparsable-impl", verdict := verdict, tags := ["bad-oracle"], st := hs }
 
 def run (op impl : String) : Ans :=
